@@ -68,7 +68,7 @@ def build(tier, known):
             cfgs.append(('enum_bytes', dict(n=n, kind='enum', strict=strict, ascii_only=False), 'ALL byte strings; item lookup uninterpreted; symbolic 2-row table'))
     hs.append(Harness('n_attr_text', 'data', 'parser.rs', '', functions=[], bound='', claim='', role='native'))
     for strict in (True, False):
-        for ascii_only, nmax in ((True, 5 if q else 7), (False, 3 if q else 4)):
+        for ascii_only, nmax in ((True, 5 if q else 6), (False, 3 if q else 4)):
             for n in range(0, nmax + 1):
                 dom = 'all ASCII texts' if ascii_only else 'ALL byte strings (incl. invalid UTF-8)'
                 hs.append(E2Spec(f'e2_c02_attrtext_{"ascii" if ascii_only else "bytes"}_{"strict" if strict else "lenient"}_n{n}', 'AttrText',
@@ -93,10 +93,19 @@ def build(tier, known):
         hs.append(E2Spec(f'e2_c02_doc_len{L}', 'ParseElementDocs', dict(length=L, aspect='c02'), functions=PFUNCS,
                          bound=f'ALL {11 ** L} token sequences of length exactly {L} as the body of the root element; ' + SCHEMA,
                          claim='no panic, termination, and every error names a line of the document, for the whole tokenizer + element parser on these documents', native=('data', 'n_parse_element_doc'), parts=(16 if L >= 4 else (4 if L == 3 else 1)), timeout=1500 if q else 7200))
-    for base in ([0, 1, 2, 3, 4, 7, 9, 10] if q else range(0, 11)):
-        hs.append(E2Spec(f'e2_c02_doc_edits{base}', 'ParseElementDocs', dict(base=base, aspect='c02', sym_texts=(2 if base < 5 else 1)), functions=PFUNCS,
+    for base in ([0, 1, 2, 3, 4, 7, 9, 10, 11] if q else range(0, 12)):
+        hs.append(E2Spec(f'e2_c02_doc_edits{base}', 'ParseElementDocs', dict(base=base, aspect='c02', sym_texts=(2 if base < 5 or base == 11 else 1), sym_comments=(1 if base == 3 else 0)), functions=PFUNCS,
                          bound=f'seed document no. {base} of mirsym/e2defs.py VALID_DOCS (valid documents and documents with one defect) and ALL its single-token edits (delete, duplicate, replace by any token, insert any token anywhere); ' + SCHEMA,
-                         claim='no panic, termination, and every error names a line of the document, for the whole tokenizer + element parser on these documents', native=('data', 'n_parse_element_doc'), parts=(16 if base in (4, 5, 6, 7, 8) else 8), timeout=1500 if q else 7200))
+                         claim='no panic, termination, and every error names a line of the document, for the whole tokenizer + element parser on these documents', native=('data', 'n_parse_element_doc'), parts=(16 if base in (4, 5, 6, 7, 8, 11) else 8), timeout=1500 if q else 7200))
+    for K in range(0, (3 if q else 4) + 1):
+        hs.append(E2Spec(f'e2_c02_doc_children{K}', 'ParseElementDocs', dict(children=K, aspect='c02', sym_texts=2, sym_comments=1), functions=PFUNCS,
+                         bound=f'one AR-PACKAGE with ALL {6 ** K} sequences of exactly {K} children, each one of: SHORT-NAME with a text, CATEGORY with a text, empty AR-PACKAGES, a comment, a stray text, SHORT-NAME without text; the first two texts are one symbolic byte, the first comment has three symbolic bytes; ' + SCHEMA,
+                         claim='no panic, termination, and every error names a line of the document, for the whole tokenizer + element parser on these documents', native=('data', 'n_parse_element_doc'), parts=(16 if K >= 3 else (4 if K == 2 else 1)), timeout=1500 if q else 7200))
+    # ---- mixed content (documentation text): the third layout branch of the serializer, inline comments, attributes ----
+    MIXED = 'schema extension for mixed content: AR-PACKAGE > DESC (0..1) > L-2* (Mixed content, required enum attribute L) > BR (empty element), SUP (character element), text; 8 more tokens (<DESC>, </DESC>, <L-2 L="EN">, </L-2>, <BR/>, <SUP>, </SUP>, <L-2>); package SHORT-NAME fixed to x'
+    hs.append(E2Spec('e2_c02_doc_mixed_edits', 'ParseElementDocs', dict(mixed_base=0, aspect='c02', sym_texts=2, first_text_concrete=True), functions=PFUNCS,
+                     bound='the seed <AR-PACKAGES><AR-PACKAGE><SHORT-NAME>x</SHORT-NAME><DESC><L-2 L="EN">?<BR/>x</L-2></DESC></AR-PACKAGE></AR-PACKAGES></AUTOSAR> and ALL its single-token edits over the 19 tokens; ' + MIXED + '; ' + SCHEMA,
+                     claim='no panic, termination, and every error names a line of the document, for the whole tokenizer + element parser on these documents', native=('data', 'n_parse_element_doc'), parts=16, timeout=1500 if q else 7200))
     info = dict(
         assumptions=[
             'tokenizer steps are decided from an arbitrary state satisfying the stated representation invariant (inductive step); the invariant holds initially (ArxmlLexer::new: cursor 0 or 3, line 1, no deferred token)',
